@@ -13,11 +13,14 @@ import (
 	"errors"
 	"fmt"
 	"io"
+	"net"
 	"net/http"
+	"os"
 	"reflect"
 	"sort"
 	"strings"
 	"sync"
+	"syscall"
 	"sync/atomic"
 	"unicode/utf8"
 
@@ -146,11 +149,56 @@ type exchange struct {
 	body   string
 }
 
+// Transport faults, encoded as negative Case.Status values: the exchange fails
+// below HTTP. A second request (there must be none) would be answered with a
+// complete 200 response, as a server that is back would.
+var transportFaults = []struct {
+	Name string
+	Err  error
+	Cut  bool // 200 response whose body breaks off in the middle with Err
+}{
+	{"connection closed before any response byte (io.EOF)", io.EOF, false},
+	{"unexpected EOF", io.ErrUnexpectedEOF, false},
+	{"connection reset by peer", &net.OpError{Op: "read", Net: "tcp", Err: os.NewSyscallError("read", syscall.ECONNRESET)}, false},
+	{"connection refused", &net.OpError{Op: "dial", Net: "tcp", Err: os.NewSyscallError("connect", syscall.ECONNREFUSED)}, false},
+	{"timeout", context.DeadlineExceeded, false},
+	{"some other transport error", errors.New("c20: transport broke"), false},
+	{"body cut in the middle (unexpected EOF)", io.ErrUnexpectedEOF, true},
+	{"body cut in the middle (connection reset)", &net.OpError{Op: "read", Net: "tcp", Err: os.NewSyscallError("read", syscall.ECONNRESET)}, true},
+}
+
+type cutReader struct {
+	data string
+	err  error
+}
+
+func (c *cutReader) Read(p []byte) (int, error) {
+	if c.data == "" {
+		return 0, c.err
+	}
+	n := copy(p, c.data)
+	c.data = c.data[n:]
+	return n, nil
+}
+
 func (x *exchange) RoundTrip(req *http.Request) (*http.Response, error) {
 	x.mu.Lock()
 	x.events = append(x.events, "request")
 	x.reqs = append(x.reqs, request{Method: req.Method, URL: req.URL.String(), HasBody: req.Body != nil && req.Body != http.NoBody})
+	first := len(x.reqs) == 1
 	x.mu.Unlock()
+	if x.status < 0 {
+		f := transportFaults[-x.status-1]
+		if first && !f.Cut {
+			return nil, f.Err
+		}
+		body := io.Reader(strings.NewReader(x.body))
+		if first {
+			body = &cutReader{data: x.body[:len(x.body)*2/3], err: f.Err}
+		}
+		return &http.Response{Status: "200 OK", StatusCode: 200, Proto: "HTTP/1.1", ProtoMajor: 1, ProtoMinor: 1,
+			Header: http.Header{"Content-Type": []string{"application/xml; charset=utf-8"}}, Body: io.NopCloser(body), ContentLength: -1, Request: req}, nil
+	}
 	return &http.Response{
 		Status:        fmt.Sprintf("%d %s", x.status, http.StatusText(x.status)),
 		StatusCode:    x.status,
@@ -431,6 +479,14 @@ func checkCase(r *kit.Run, c *Case) {
 		cause = "limiter-error"
 		if len(got.Elems) > 0 || got.HasPtr {
 			viol("partial-data/"+fam, "data returned although the limiter refused")
+		}
+	case c.Status < 0:
+		cause = "transport-fault"
+		if got.Err == nil {
+			viol("transport-fault/no-error/"+fam, "the exchange failed below HTTP ("+transportFaults[-c.Status-1].Name+"), yet the call returned no error")
+		}
+		if len(got.Elems) > 0 || got.HasPtr {
+			viol("partial-data/"+fam, "data returned although the exchange failed: "+transportFaults[-c.Status-1].Name)
 		}
 	case c.Status != 200:
 		cause = fmt.Sprint(c.Status)
@@ -868,6 +924,27 @@ func main() {
 			}
 		}
 		r.Set("cases_package_level_and_nil_client", serial)
+
+		// transport faults: the one exchange fails below HTTP (or its body breaks off);
+		// exactly one request, an error, no data - a request sent again is a second GET
+		nfault := 0
+		for i := range endpoints {
+			e := &endpoints[i]
+			for _, withOpts := range []bool{false, true} {
+				for f := range transportFaults {
+					for lim := 0; lim < 2; lim++ {
+						for body := 1; body <= 3; body++ {
+							c := repCase(e, withOpts)
+							c.Call, c.Status, c.Body, c.Limiter = e.Call, -(f + 1), body, lim
+							checkCase(r, &c)
+							nfault++
+							perFamily[e.Family]++
+						}
+					}
+				}
+			}
+		}
+		r.Set("cases_transport_faults", nfault)
 
 		// sequence pass: every ordered pair of calls on one Datasource and one
 		// http.Client; the second call is judged exactly like a first call
